@@ -1463,7 +1463,7 @@ func (s *PrintCtx) appendValue(val any) {
 					hintInternal(err, "MarshalText failed")
 					break
 				}
-				s.pcAppendStringValue(string(data))
+				s.pcQuoteValue(string(data)) // text like any other: quoted and escaped
 				break
 			}
 		}
